@@ -1,8 +1,166 @@
-(** Property C06 -- INTERIM statement file: the unbounded theorems for this property are being
-    proved (Proofs/YearlyProofs.v, BalanceProofs.v, FilterProofs.v); it currently pins the
-    constants the model takes from the source. *)
-From RP2V Require Import Base.Prelude Base.Dec Model.Types Model.Generated.
+(** Property C06 -- the yearly gain/loss summary equals the sum of its detail fractions.
+
+    Model: [yearly_list period to_day from_year gls] of Model/Computed.v (computed_data.py
+    [_create_yearly_gain_loss_list] + [_filter_yearly_gain_loss_by_year]); [gls] is the detail table
+    (all fractions, sorted by the instant of their taxable event), [to_day] the to-date,
+    [from_year] the year of the from-date, [period] the long-term holding period of the country.
+    [take_until g_day to_day gls] is what the summary loop sees: it walks the detail table and
+    [break]s at the first fraction whose local date is after the to-date.
+    Vocabulary ([line_has_key], [dsum], [odflt], [line_before]): Model/ComputedSpec.v.
+    Proofs: Proofs/YearlyProofs.v, Proofs/C06Proofs.v. *)
+From Coq Require Import List ZArith Bool Lia Sorted QArith Qabs.
+From RP2V Require Import Base.Prelude Base.Time Base.Dec Model.Types Model.Generated Model.Pipeline Model.Computed Model.ComputedSpec
+  Proofs.DecProofs Proofs.FilterProofs Proofs.C06Proofs Proofs.ComputedProofs Proofs.FiatSumProofs.
+Import ListNotations.
 Open Scope Z_scope.
-Theorem C06_constants : gen_balance_mask_digits = 10 /\ gen_crypto_decimals = 13.
-Proof. split; reflexivity. Qed.
-Print Assumptions C06_constants.
+
+(** the summary shown by a run is [yearly_list] of that run's own detail table *)
+Theorem C06_summary_of_run : forall period from_day to_day allow exs hos t fs cd,
+  compute period from_day to_day allow exs hos t fs = Ok cd ->
+  yearly_list period to_day (year_of_day from_day) (cd_all_gls cd) = Ok (cd_yearly cd).
+Proof. exact c06_summary_of_run. Qed.
+
+(** "Each line ... equals the sums of crypto amount, proceeds, cost basis and gain over exactly the
+    detail fractions with that key": the crypto amount is the exact integer sum, the three fiat figures
+    are the left-to-right 31-digit sums the code computes; "exactly the fractions with that key" is the
+    filter [line_has_key]; "lines exist only for keys that have fractions" is [mine <> []]. *)
+Theorem C06_line_is_sum : forall period to_day from_year gls yl,
+  yearly_list period to_day from_year gls = Ok yl ->
+  forall L, In L yl ->
+    let mine := filter (line_has_key period L) (take_until g_day to_day gls) in
+    mine <> [] /\
+    y_crypto L = sumZ (map g_amt mine) /\
+    y_fiat L = dsum (map (fun g => odflt (g_proceeds g)) mine) /\
+    y_cost L = dsum (map (fun g => odflt (g_cost g)) mine) /\
+    y_gain L = dsum (map (fun g => odflt (g_gain g)) mine).
+Proof. exact c06_line_is_sum. Qed.
+
+(** "the year being that of the taxable event's own timestamp" (not the lot's), in local time *)
+Theorem C06_key_is_event_year : forall period L g,
+  line_has_key period L g = true <->
+  local_year (t_ts (g_ev g)) = y_year L /\ t_type (g_ev g) = y_type L /\ gl_is_long period (g_ev g) (g_lot g) = y_long L.
+Proof. exact line_has_key_iff. Qed.
+
+(** the summed figures are all defined: the run succeeds exactly when they are *)
+Theorem C06_figures_defined : forall period to_day from_year gls,
+  (exists yl, yearly_list period to_day from_year gls = Ok yl) <->
+  (forall g, In g (take_until g_day to_day gls) -> g_proceeds g <> None /\ g_cost g <> None /\ g_gain g <> None).
+Proof. exact c06_figures_defined. Qed.
+
+(** "Every fraction ... contributes to exactly one line" (of the years that are shown) *)
+Theorem C06_fraction_in_exactly_one_line : forall period to_day from_year gls yl,
+  yearly_list period to_day from_year gls = Ok yl ->
+  forall g, In g (take_until g_day to_day gls) -> from_year <= g_year g ->
+    exists L, In L yl /\ line_has_key period L g = true /\
+              forall L', In L' yl -> line_has_key period L' g = true -> L' = L.
+Proof. exact c06_fraction_one_line. Qed.
+
+(** "lines exist only for keys that have fractions" (and only for years from the from-date's year on) *)
+Theorem C06_no_line_without_fraction : forall period to_day from_year gls yl,
+  yearly_list period to_day from_year gls = Ok yl ->
+  forall L, In L yl -> from_year <= y_year L /\
+    exists g, In g (take_until g_day to_day gls) /\ line_has_key period L g = true.
+Proof. exact c06_no_empty_line. Qed.
+
+(** no key appears twice *)
+Theorem C06_keys_distinct : forall period to_day from_year gls yl,
+  yearly_list period to_day from_year gls = Ok yl ->
+  NoDup yl /\
+  forall a b, In a yl -> In b yl -> y_year a = y_year b -> y_type a = y_type b -> y_long a = y_long b -> a = b.
+Proof. exact c06_keys_distinct. Qed.
+
+(** "the per-asset grand totals therefore equal the totals of the detail table": exact for the crypto amount
+    (fiat figures: C06_fiat_totals below) *)
+Theorem C06_grand_total_crypto : forall period to_day from_year gls yl,
+  yearly_list period to_day from_year gls = Ok yl ->
+  sumZ (map y_crypto yl) = sumZ (map g_amt (filter (fun g => from_year <=? g_year g) (take_until g_day to_day gls))).
+Proof. exact c06_crypto_total. Qed.
+
+(** The fiat figures against exact arithmetic.  [to_q d] is the exact rational value of a decimal, [qsum l] the exact
+    sum of the values of [l], [EPS] = 5e-31 (half a unit in the 31st digit, relative), and [partial_mag dzero l] the sum of
+    the magnitudes of the intermediate sums of the left-to-right addition of [l] (at most length x the largest partial
+    sum): every reported figure is within EPS x that of the exact sum of its fractions ... *)
+Theorem C06_line_fiat_error : forall period to_day from_year gls yl,
+  yearly_list period to_day from_year gls = Ok yl ->
+  forall L, In L yl ->
+  let mine := filter (line_has_key period L) (take_until g_day to_day gls) in
+  (Qabs (to_q (y_fiat L) - qsum (map (fun g => odflt (g_proceeds g)) mine)) <= EPS * partial_mag dzero (map (fun g => odflt (g_proceeds g)) mine) /\
+   Qabs (to_q (y_cost L) - qsum (map (fun g => odflt (g_cost g)) mine)) <= EPS * partial_mag dzero (map (fun g => odflt (g_cost g)) mine) /\
+   Qabs (to_q (y_gain L) - qsum (map (fun g => odflt (g_gain g)) mine)) <= EPS * partial_mag dzero (map (fun g => odflt (g_gain g)) mine))%Q.
+Proof. exact c06_line_fiat_bounds. Qed.
+
+(** ... and the grand totals of the three fiat columns are within the sum of these bounds ([total_bound]) of the exact
+    totals of the detail table (fractions up to the cut, of the years shown) *)
+Theorem C06_fiat_totals : forall period to_day from_year gls yl,
+  yearly_list period to_day from_year gls = Ok yl ->
+  let counted := filter (fun g => from_year <=? g_year g) (take_until g_day to_day gls) in
+  (Qabs (qsumf (fun L => to_q (y_fiat L)) yl - qsum (map (fun g => odflt (g_proceeds g)) counted)) <= total_bound period to_day gls yl (fun g => odflt (g_proceeds g)) /\
+   Qabs (qsumf (fun L => to_q (y_cost L)) yl - qsum (map (fun g => odflt (g_cost g)) counted)) <= total_bound period to_day gls yl (fun g => odflt (g_cost g)) /\
+   Qabs (qsumf (fun L => to_q (y_gain L)) yl - qsum (map (fun g => odflt (g_gain g)) counted)) <= total_bound period to_day gls yl (fun g => odflt (g_gain g)))%Q.
+Proof. exact c06_fiat_totals. Qed.
+
+(** the from-date only hides the lines of earlier years; the lines of the remaining years are unchanged *)
+Theorem C06_from_year_only_hides_lines : forall period to_day fy fy' gls yl yl',
+  yearly_list period to_day fy gls = Ok yl -> yearly_list period to_day fy' gls = Ok yl' -> fy' <= fy ->
+  yl = filter (fun l => fy <=? y_year l) yl'.
+Proof. exact c06_from_year. Qed.
+
+(** order of the summary: year descending, SHORT before LONG, type descending *)
+Theorem C06_order : forall period to_day from_year gls yl,
+  yearly_list period to_day from_year gls = Ok yl -> StronglySorted line_before yl.
+Proof. exact c06_order. Qed.
+
+(** "Every fraction dated up to the to-date contributes": when local dates are monotone in time
+    ([day_sorted]: true whenever all timestamps carry the same UTC offset) the loop's [break] is the
+    filter "dated up to the to-date" ... *)
+Theorem C06_line_is_sum_of_all_dated_fractions : forall period to_day from_year gls yl,
+  day_sorted g_day gls ->
+  yearly_list period to_day from_year gls = Ok yl ->
+  forall L, In L yl ->
+    let mine := filter (fun g => line_has_key period L g && (g_day g <=? to_day)) gls in
+    mine <> [] /\
+    y_crypto L = sumZ (map g_amt mine) /\
+    y_fiat L = dsum (map (fun g => odflt (g_proceeds g)) mine) /\
+    y_cost L = dsum (map (fun g => odflt (g_cost g)) mine) /\
+    y_gain L = dsum (map (fun g => odflt (g_gain g)) mine).
+Proof. exact c06_line_is_sum_sorted. Qed.
+
+Theorem C06_every_dated_fraction_counts : forall period to_day from_year gls yl,
+  day_sorted g_day gls ->
+  yearly_list period to_day from_year gls = Ok yl ->
+  forall g, In g gls -> g_day g <= to_day -> from_year <= g_year g ->
+    exists L, In L yl /\ line_has_key period L g = true /\
+              forall L', In L' yl -> line_has_key period L' g = true -> L' = L.
+Proof. exact c06_every_dated_fraction_counts. Qed.
+
+(** ... and without that hypothesis the sentence is false for the code as it is (finding F9): in the
+    history [h9] (Proofs/L4Examples.v; a sale written at +14:00 followed by one written at -12:00) the
+    second sale is dated 2020-12-31, the to-date is 2020-12-31, and the summary is empty. *)
+Theorem C06_to_date_refuted : exists period to_day from_year gls yl g,
+  yearly_list period to_day from_year gls = Ok yl /\
+  In g gls /\ g_day g <= to_day /\ from_year <= g_year g /\
+  forall L, In L yl -> line_has_key period L g = false.
+Proof. exact c06_to_date_refuted. Qed.
+
+(** Non-vacuity (Proofs/C06Proofs.v, evaluated by the kernel on history A of Proofs/L4Examples.v: three calendar
+    years, two holders, a sale split into a long and a short fraction, two fractions in one line):
+    [c06_example_whole], [c06_example_cut] (to-date inside 2020, from-year 2020), [c06_glsA_sorted],
+    [c06_example_run] (the same through [compute]), and the instances [c06_line_is_sum_instance],
+    [c06_counts_instance] of the theorems above; Proofs/FiatSumProofs.v: [c06_fiat_totals_instance],
+    [c06_total_bound_small] (the bound on the grand total of the proceeds of history A is 1.5e-27). *)
+
+Print Assumptions C06_summary_of_run.
+Print Assumptions C06_line_is_sum.
+Print Assumptions C06_key_is_event_year.
+Print Assumptions C06_figures_defined.
+Print Assumptions C06_fraction_in_exactly_one_line.
+Print Assumptions C06_no_line_without_fraction.
+Print Assumptions C06_keys_distinct.
+Print Assumptions C06_grand_total_crypto.
+Print Assumptions C06_line_fiat_error.
+Print Assumptions C06_fiat_totals.
+Print Assumptions C06_from_year_only_hides_lines.
+Print Assumptions C06_order.
+Print Assumptions C06_line_is_sum_of_all_dated_fractions.
+Print Assumptions C06_every_dated_fraction_counts.
+Print Assumptions C06_to_date_refuted.
